@@ -60,15 +60,22 @@ def run_sharded(ctx, cases, shards, timeout=1700):
                               "-shard", str(s), "-shards", str(shards)], stdout=lg, stderr=subprocess.STDOUT, env=env, cwd=ctx.tmp)
         return (p, t, r, lg, s)
     procs = [start(s, 0) for s in range(shards)]
-    traces, results = [], []
+    done, again = {}, []
     for p, t, r, lg, s in procs:
         rc = p.wait()
         lg.close()
         if rc != 0 and rc != 124:
-            vlib.log("[C14] driver shard %d died rc=%s, starting it once more\n%s" % (s, rc, vlib.tail(lg.name, 8)))
-            p, t, r, lg, s = start(s, 1)
-            rc = p.wait()
-            lg.close()
+            vlib.log("[C14] driver shard %d died rc=%s, starting it once more\n%s" % (s, rc, vlib.tail(lg.name, 4)))
+            again.append(start(s, 1))
+        else:
+            done[s] = (rc, t, r, lg)
+    for p, t, r, lg, s in again:          # the restarted shards run in parallel
+        rc = p.wait()
+        lg.close()
+        done[s] = (rc, t, r, lg)
+    traces, results = [], []
+    for s in range(shards):
+        rc, t, r, lg = done[s]
         if rc != 0:
             raise vlib.Inconclusive("driver c14 shard %d died rc=%s\n%s" % (s, rc, vlib.tail(lg.name)))
         traces.append(t)
@@ -119,7 +126,7 @@ def run(ctx):
     else:
         # every chain of length <= 3 (exhaustive) and a VERIF_SEED sample of the chains of length 4
         four = [c for c in cases if len(c["chain"]) > 3]
-        picked = [c for c in cases if len(c["chain"]) <= 3] + rng.sample(four, min(len(four), 40000))
+        picked = [c for c in cases if len(c["chain"]) <= 3] + rng.sample(four, min(len(four), 25000))
     picked += real_cases()
     rng.shuffle(picked)
     shards = 12 if q else 14
@@ -214,7 +221,7 @@ def run(ctx):
                        "upstream closes, TerminateStream while the upstream holds the request, TerminateStream after the end}) = one "
                        "complete behaviour of FilterChain.tla (%d); each is one HTTP/1 request through the in-process MOSN; quick replays "
                        "all chains of length <=2, the answer+re-entry combinations of length 3 and a VERIF_SEED sample of the rest; "
-                       "thorough replays every chain of length <=3 and a VERIF_SEED sample of 40000 chains of length 4; "
+                       "thorough replays every chain of length <=3 and a VERIF_SEED sample of 25000 chains of length 4; "
                        "plus 48 cases with a real ipaccess / payloadlimit / faultinject filter denying in the middle of the chain" % len(cases))
     ctx.assumptions += ["HTTP/1 downstream and upstream, one request at a time per MOSN instance (12-14 instances in parallel)",
                         "re-match / re-choose are returned only in the phase in which the proxy honours them (AfterRoute / AfterChooseHost), "
